@@ -236,7 +236,10 @@ func runC18(rc *RC) {
 							c.ansAt, c.ansStep = rc.S.Now(), rc.S.Steps
 							answers[to] = append(answers[to], roomAns{"unavail", rc.S.Steps, rc.S.Now(), c})
 							pre, post := extras()
-							e.PeerWrite(fmt.Sprintf(`<presence from="%s" type="unavailable">%s<x xmlns="http://jabber.org/protocol/muc#user"><item affiliation="member" role="none"/><status code="110"/></x>%s</presence>`, escText(to), pre, post))
+							// the occupant leaves as what it was in the room - or as an outcast, when a ban crossed the request
+							item := []string{`<item affiliation="member" role="none"/>`, `<item affiliation="none" role="none"/>`, `<item affiliation="owner" role="none"/>`, `<item affiliation="admin" role="none"/>`,
+								`<item affiliation="outcast" role="none"><reason>banned</reason></item><status code="301"/>`}[ch.Int("workload", 5)]
+							e.PeerWrite(fmt.Sprintf(`<presence from="%s" type="unavailable">%s<x xmlns="http://jabber.org/protocol/muc#user">%s<status code="110"/></x>%s</presence>`, escText(to), pre, item, post))
 							c.answered = "unavail"
 						} else {
 							for k := 0; k < c.others; k++ {
@@ -245,7 +248,18 @@ func runC18(rc *RC) {
 							c.ansAt, c.ansStep = rc.S.Now(), rc.S.Steps
 							answers[to] = append(answers[to], roomAns{"self", rc.S.Steps, rc.S.Now(), c})
 							pre, post := extras()
-							e.PeerWrite(fmt.Sprintf(`<presence from="%s">%s<x xmlns="http://jabber.org/protocol/muc#user"><item affiliation="member" role="participant"/><status code="110"/></x>%s</presence>`, escText(to), pre, post))
+							item := []string{`<item affiliation="member" role="participant"/>`, `<item affiliation="none" role="visitor"/>`, `<item affiliation="owner" role="moderator"/>`, `<item affiliation="admin" role="moderator" jid="me@example.net/sut"/>`}[ch.Int("workload", 4)]
+							if c.split > 0 {
+								// the self-presence arrives in two pieces: the call may only succeed on the whole of it
+								e.PeerWrite(fmt.Sprintf(`<presence from="%s">%s<x xmlns="http://jabber.org/protocol/muc#user">`, escText(to), pre))
+								simrt.Sleep(c.split)
+								rc.Fire("self-presence-in-pieces")
+								c.ansAt, c.ansStep = rc.S.Now(), rc.S.Steps
+								answers[to][len(answers[to])-1].at, answers[to][len(answers[to])-1].step = rc.S.Now(), rc.S.Steps
+								e.PeerWrite(fmt.Sprintf(`%s<status code="110"/></x>%s</presence>`, item, post))
+							} else {
+								e.PeerWrite(fmt.Sprintf(`<presence from="%s">%s<x xmlns="http://jabber.org/protocol/muc#user">%s<status code="110"/></x>%s</presence>`, escText(to), pre, item, post))
+							}
 							c.answered = "self"
 						}
 					case 1:
